@@ -55,4 +55,4 @@ def unit_text(a):
 
 def run_text(ctx, pid):
     q = ctx.quick
-    ctx.units("parsed-model-documents", unit_text, [{"pid": pid, "n": 400 if q else 5000, "seed": ctx.seed, "shard": i} for i in range(4 if q else 16)], procs=16)
+    ctx.units("parsed-model-documents", unit_text, [{"pid": pid, "n": 600 if q else 5000, "seed": ctx.seed, "shard": i} for i in range(8 if q else 16)], procs=16)
